@@ -128,3 +128,30 @@ class Leafy(pg.Object):
 class SealedByDefault(pg.Object):
   """A class whose instances are sealed unless explicitly unsealed."""
   allow_symbolic_mutation = False
+
+
+# ---------------------------------------------------------------------------
+# C06: classes for equality / ordering laws
+# ---------------------------------------------------------------------------
+@pg.members([('x', pg.typing.Any(default=None))])
+class EqA(pg.Object):
+  """Plain symbolic class (Python == is identity unless opted in)."""
+
+
+class EqB(EqA):
+  """Subclass with the same fields."""
+
+
+@pg.members([('y', pg.typing.Any(default=0))])
+class EqC(EqA):
+  """Subclass with an extra field."""
+
+
+@pg.members([('x', pg.typing.Any(default=None))])
+class EqS(pg.Object):
+  """Class opting into symbolic comparison for ==, != and hash()."""
+  use_symbolic_comparison = True
+
+
+class EqT(EqS):
+  """Subclass of the opted-in class."""
